@@ -19,7 +19,7 @@ const PREPARED: &[&str] = &[
   "{g: function() x + 1, r: g()}.r",
   // deep recursion (a guard against runaway recursion, a depth counter, a cache of frames must leave nothing behind)
   "{d: function(n) if n <= 0 then x else d(n - 1), r: d(300)}.r",
-  "count(for i in 1..12 return {d: function(n) if n <= 0 then 0 else d(n - 1), r: d(1100)}.r) + x",
+  "{d: function(n) if n <= 0 then x else d(n - 1), r: d(1100)}.r",
 ];
 
 const MODEL: &str = include_str!("../../data/c13_model.dmn");
